@@ -122,7 +122,8 @@ static bool is_reserved(const std::string& w)
         "or",     "not",    "imply",     "meta",   "select", "break",  "continue", "switch", "case",   "default", "double",
         "hybrid", "system", "process",   "state",  "init",   "trans",  "guard",    "sync",   "assign", "commit", "priority",
         "scalar", "string", "deadlock",  "xor",    "min",    "max",    "progress", "gantt",  "rate",   "before_update",
-        "after_update", "assert", "probability", "branchpoint", "import", "A", "E", "U", "W", "R", "M", "Pr", "simulate"};
+        "after_update", "assert", "probability", "branchpoint", "import", "A", "E", "U", "W", "R", "M", "Pr", "simulate",
+        "spawn", "exit", "numof", "foreach", "dynamic", "control", "strategy", "inf", "sup", "bounds"};
     return kw.count(w) > 0;
 }
 
